@@ -6,6 +6,7 @@ EnvInt(name, default) == IF name \in DOMAIN IOEnv THEN atoi(IOEnv[name]) ELSE de
 
 MC_Planner == EnvOr("V_PLANNER", "rrt")
 MC_MaxCalls == EnvInt("V_MAXCALLS", 4)
+MC_Shape == EnvOr("V_SHAPE", "any")
 MaxK == EnvInt("V_MAXK", 3)
 \* "bias" k: 1 = -0.1, 2 = 1.5, 3 = NaN
 MC_Faults ==
@@ -14,21 +15,46 @@ MC_Faults ==
        \cup {[f |-> "ufail", k |-> k] : k \in 1 .. MaxK}
        \cup {[f |-> "gfail", k |-> k] : k \in 1 .. MaxK}
        \cup (IF MC_Planner = "prm" THEN {} ELSE {[f |-> "bias", k |-> k] : k \in 1 .. 3})
-\* V_VALIDALL=1: every point valid (both problems solvable) - long histories of well-formed use
-ValidAll == EnvOr("V_VALIDALL", "0") = "1"
-MC_StartValid == IF ValidAll THEN <<TRUE, TRUE>> ELSE <<TRUE, FALSE>>
 
-\* the replay world: line of 5 points, point 4 invalid; P1 = 0 -> {3}; P2 starts on the invalid point
+(***************************************************************************)
+(* The replay worlds.                                                      *)
+(*  line5   (default) line of 5 points, point 4 invalid; P1 = 0 -> {3};    *)
+(*          P2 starts on the invalid point.  V_VALIDALL=1: every point     *)
+(*          valid (both problems solvable) - long histories of well-formed *)
+(*          use.  Both checkers answer alike (two objects, one function).  *)
+(*  pocket7 line of 7 points; checker V1 accepts everything, checker V2    *)
+(*          rejects point 4 (a wall that seals off {5, 6}); P1 = 0 -> {3}  *)
+(*          (solvable under both), P2 = 0 -> {6} (solvable under V1 only:  *)
+(*          under V2 start connections and goal milestones exist but in    *)
+(*          different components); connection radius 1.5, so P1 needs a    *)
+(*          multi-hop roadmap path.                                        *)
+(***************************************************************************)
+ApiWorld == EnvOr("V_APIWORLD", "line5")
+Pocket == ApiWorld = "pocket7"
+ValidAll == EnvOr("V_VALIDALL", "0") = "1"
+NPts == IF Pocket THEN 7 ELSE 5
+AllPts == 0 .. (NPts - 1)
+W1 == IF Pocket \/ ValidAll THEN AllPts ELSE AllPts \ {4}
+W2 == IF Pocket THEN AllPts \ {4} ELSE W1
+MC_Worlds == <<W1, W2>>
+MC_Probs == IF Pocket THEN << [start |-> 0, goal |-> {3}], [start |-> 0, goal |-> {6}] >>
+                      ELSE << [start |-> 0, goal |-> {3}], [start |-> 4, goal |-> {0}] >>
+MC_StartValid == [v \in 1 .. 2 |-> [p \in 1 .. 2 |-> MC_Probs[p].start \in MC_Worlds[v]]]
+\* "own": problem i always comes with checker object i; "free": any combination
+MC_SetupChoices == IF EnvOr("V_CHECKERS", "own") = "free" THEN (1 .. 2) \X (1 .. 2) ELSE {<<1, 1>>, <<2, 2>>}
+
 Emit ==
   (EnvOr("V_EMIT", "0") = "1") =>
      PrintT(<<"HIST", ToJson([planner |-> MC_Planner,
-                             topo |-> [kind |-> "line", n |-> 5, w |-> 5],
-                             maxd |-> 2, rad2 |-> 5, lvs |-> 1,
+                             topo |-> [kind |-> "line", n |-> NPts, w |-> NPts],
+                             maxd |-> 2, rad2 |-> IF Pocket THEN 3 ELSE 5, lvs |-> 1,
                              bias |-> IF fault.f = "gfail" THEN "1" ELSE "p",
-                             seeded |-> TRUE, valid |-> IF ValidAll THEN {0, 1, 2, 3, 4} ELSE {0, 1, 2, 3},
-                             probs |-> << [start |-> 0, goal |-> {3}], [start |-> 4, goal |-> {0}] >>,
-                             build |-> 3, solve_t |-> 4, autoscript |-> TRUE, fault |-> fault,
+                             seeded |-> TRUE, worlds |-> MC_Worlds,
+                             probs |-> MC_Probs,
+                             build |-> IF Pocket THEN 16 ELSE 3, solve_t |-> IF Pocket THEN 8 ELSE 4,
+                             autoscript |-> TRUE, fault |-> fault,
                              calls |-> [i \in 1 .. Len(hist') |->
-                                          IF hist'[i].c \in {"setup", "setpd"} THEN [c |-> hist'[i].c, i |-> hist'[i].i]
-                                          ELSE [c |-> hist'[i].c, i |-> 0]]])>>)
+                                          IF hist'[i].c = "setup" THEN [c |-> "setup", i |-> hist'[i].i, v |-> hist'[i].v]
+                                          ELSE IF hist'[i].c = "setpd" THEN [c |-> "setpd", i |-> hist'[i].i, v |-> 0]
+                                          ELSE [c |-> hist'[i].c, i |-> 0, v |-> 0]]])>>)
 =============================================================================
